@@ -238,6 +238,22 @@ func init() {
 		w := w
 		c20Families["depth:"+w] = func(d int) string { return c20DepthText(w, d) }
 	}
+	// one wide element followed by many narrow ones of the same kind (n/2 entries, then n/8 repetitions): nothing the
+	// wide one left behind — a size hint, a grown buffer, a remembered width — may be paid again by every later one
+	narrowThenWide := func(wide func(w int) string, narrow string) func(n int) string {
+		return func(n int) string { return wide(n/2+1) + strings.Repeat(narrow, n/8+1) }
+	}
+	c20Families["wide-then-narrow:in-lists"] = narrowThenWide(func(w int) string { return "SELECT a FROM t WHERE a IN (1" + strings.Repeat(", 1", w) + ");\n" }, "SELECT a FROM t WHERE a IN (1, 2, 3);\n")
+	c20Families["wide-then-narrow:in-lists-one-statement"] = narrowThenWide(func(w int) string { return "SELECT a FROM t WHERE a IN (1" + strings.Repeat(", 1", w) + ")" }, " OR a IN (1, 2, 3)")
+	c20Families["wide-then-narrow:values-rows"] = narrowThenWide(func(w int) string { return "INSERT INTO t VALUES (1" + strings.Repeat(", 1", w) + ");\n" }, "INSERT INTO t VALUES (1, 2, 3);\n")
+	c20Families["wide-then-narrow:values-rows-one-statement"] = narrowThenWide(func(w int) string { return "INSERT INTO t (a) VALUES (1" + strings.Repeat(" + 1", w) + ")" }, ", (1)")
+	c20Families["wide-then-narrow:select-lists"] = narrowThenWide(func(w int) string { return "SELECT a" + strings.Repeat(", a", w) + " FROM t;\n" }, "SELECT a, b, c FROM t;\n")
+	c20Families["wide-then-narrow:function-args"] = narrowThenWide(func(w int) string { return "SELECT f(1" + strings.Repeat(", 1", w) + ")" }, ", f(1, 2, 3)")
+	c20Families["wide-then-narrow:column-lists"] = narrowThenWide(func(w int) string { return "INSERT INTO t (" + distinctNames("c", w, ", ") + ") SELECT * FROM u;\n" }, "INSERT INTO t (a, b, c) SELECT * FROM u;\n")
+	c20Families["wide-then-narrow:case-arms"] = narrowThenWide(func(w int) string { return "SELECT CASE" + strings.Repeat(" WHEN a = 1 THEN 2", w) + " END" }, ", CASE WHEN a = 1 THEN 2 END")
+	c20Families["wide-then-narrow:tokens-lines"] = narrowThenWide(func(w int) string { return "SELECT " + strings.Repeat("a , ", w) + "a\n" }, "-- c\n, a\n")
+	c20Families["wide-then-narrow:comments"] = narrowThenWide(func(w int) string { return "SELECT 1 /* " + strings.Repeat("c ", w) + "*/" }, " /* c */ , 1")
+	c20Families["wide-then-narrow:strings"] = narrowThenWide(func(w int) string { return "SELECT '" + strings.Repeat("x", w*2) + "'" }, ", 'it''s'")
 	// statements that fail late: whatever was read before the failure is not read again and again
 	c20Families["broken-tail:union-chain"] = func(n int) string {
 		return "SELECT 1" + strings.Repeat(" UNION ALL SELECT 1", n/4+1) + " UNION ALL SELECT FROM"
